@@ -294,5 +294,11 @@ def _Softplus(it, ctx, a, k):
 
 
 T["torch.nn.functional.softplus"] = lambda it, ctx, a, k: VSoftplus().py_call(it, ctx, a, k)
-T["torch.nn.ModuleList"] = VExtClass("torch.nn.ModuleList")
+
+
+@op("torch.nn.ModuleList")
+def _ModuleList(it, ctx, a, k):
+    """an ordered container of sub-modules: iteration / len / indexing as a list"""
+    return VList(it.iterate(ctx, a[0]) if a else [])
+
 T["torch.nn.Module"] = VExtClass("torch.nn.Module")
